@@ -154,7 +154,10 @@ func (fv *FuncVC) strEq(m Term, a, b Term) Term {
 func (fv *FuncVC) needStrEq() {
 	if !fv.declared["streq"] {
 		fv.declared["streq"] = true
-		fv.decls = append(fv.decls, "(define-fun streq ((m (Array Int Int)) (a Str) (b Str)) Bool (and (= (st.len a) (st.len b)) (forall ((i!s Int)) (=> (and (<= 0 i!s) (< i!s (st.len a))) (= (select m (+ (st.ptr a) i!s)) (select m (+ (st.ptr b) i!s)))))))")
+		// an uninterpreted symbol with its definition as an axiom (triggered by the atom itself): equal
+		// arguments give equal atoms by congruence, without comparing two copies of the quantified body
+		fv.decls = append(fv.decls, "(declare-fun streq ((Array Int Int) Str Str) Bool)")
+		fv.axioms = append(fv.axioms, "(forall ((m!s (Array Int Int)) (a!s Str) (b!s Str)) (! (= (streq m!s a!s b!s) (and (= (st.len a!s) (st.len b!s)) (forall ((i!s Int)) (=> (and (<= 0 i!s) (< i!s (st.len a!s))) (= (select m!s (+ (st.ptr a!s) i!s)) (select m!s (+ (st.ptr b!s) i!s))))))) :pattern ((streq m!s a!s b!s))))")
 	}
 }
 
@@ -267,6 +270,13 @@ func (fv *FuncVC) instr(in ssa.Instruction) {
 		m := fv.freshConst("map", SInt)
 		fv.assumeHere(lt(intLit(0), m))
 		fv.assumeHere(eq(fv.mapLen(fv.cur, m), intLit(0)))
+		if mt, ok := x.Type().Underlying().(*types.Map); ok {
+			// a map just made has no keys (in the current and - being unreachable so far - in any later version
+			// until it is updated; the version-wise frame axioms of mapUpdate/mapDelete carry that)
+			has, _, ks, _ := fv.mapFuns(mt)
+			ver := fv.mapsVersion(fv.cur)
+			fv.assumeHere(Term{S: fmt.Sprintf("(forall ((k!n %s)) (! (not (%s %s %s k!n)) :pattern ((%s %s %s k!n))))", ks, has, ver.S, m.S, has, ver.S, m.S), Sort: SBool})
+		}
 		fv.setVal(x, m)
 	case *ssa.MakeClosure:
 		fv.makeClosure(x)
